@@ -1,8 +1,313 @@
 package main
 
-// thorough.go — extras of the thorough tier: positive controls (mutants of the
-// current source analysed through an overlay) and whole-module sweeps.
+// thorough.go — extras of the thorough tier:
+//
+//  1. positive controls: every seeded change kept under /verif/seeded/<P>-m*/ and
+//     every reverse-of-a-fix patch under /verif/controls/ that belongs to the
+//     property is applied to a throw-away copy of the CURRENT /repo sources
+//     (never to /repo), the property's rules are re-run on that copy in a child
+//     process, and the control "fires" when the child reports a violation of the
+//     property.  A patch that no longer applies, or a variant that no longer
+//     type-checks, is reported as not applicable — never as an alarm.
+//  2. whole-module sweeps beyond the frozen rule tables (evidence only):
+//     lock-guard candidates, channel closes, dropped AddTasks results.
+
+import (
+	"encoding/json"
+	"fmt"
+	"go/types"
+	"io"
+	"io/fs"
+	"os"
+	"os/exec"
+	"path/filepath"
+	"sort"
+	"strings"
+	"sync"
+
+	"golang.org/x/tools/go/ssa"
+)
+
+type controlSpec struct {
+	ID       string `json:"id"`
+	Patch    string `json:"patch"`
+	Property string `json:"property"`
+	What     string `json:"what"`
+}
+
+type controlResult struct {
+	ID     string   `json:"id"`
+	Status string   `json:"status"` // fired | missed | not_applicable
+	Rules  []string `json:"rules,omitempty"`
+	Note   string   `json:"note,omitempty"`
+}
+
+func loadControls(verif, prop string) []controlSpec {
+	var out []controlSpec
+	// seeded changes of this property
+	ents, _ := os.ReadDir(filepath.Join(verif, "seeded"))
+	for _, e := range ents {
+		if e.IsDir() && strings.HasPrefix(e.Name(), prop+"-") {
+			p := filepath.Join(verif, "seeded", e.Name(), "patch.diff")
+			if _, err := os.Stat(p); err == nil {
+				out = append(out, controlSpec{ID: "seeded/" + e.Name(), Patch: p, Property: prop, What: "independent seeded change"})
+			}
+		}
+	}
+	// reverse-of-fix patches
+	var idx []controlSpec
+	if b, err := os.ReadFile(filepath.Join(verif, "controls", "index.json")); err == nil {
+		_ = json.Unmarshal(b, &idx)
+	}
+	for _, c := range idx {
+		if c.Property == prop {
+			c.Patch = filepath.Join(verif, "controls", c.Patch)
+			c.ID = "controls/" + c.ID
+			out = append(out, c)
+		}
+	}
+	sort.Slice(out, func(i, j int) bool { return out[i].ID < out[j].ID })
+	return out
+}
+
+// copyTree copies the Go sources of repo (no .git, no test data beyond what
+// the build needs) into dst.
+func copyTree(repo, dst string) error {
+	return filepath.WalkDir(repo, func(p string, d fs.DirEntry, err error) error {
+		if err != nil {
+			return err
+		}
+		rel, _ := filepath.Rel(repo, p)
+		if d.IsDir() {
+			if d.Name() == ".git" {
+				return filepath.SkipDir
+			}
+			return os.MkdirAll(filepath.Join(dst, rel), 0o755)
+		}
+		if !d.Type().IsRegular() {
+			return nil
+		}
+		in, err := os.Open(p)
+		if err != nil {
+			return err
+		}
+		defer in.Close()
+		out, err := os.Create(filepath.Join(dst, rel))
+		if err != nil {
+			return err
+		}
+		if _, err := io.Copy(out, in); err != nil {
+			out.Close()
+			return err
+		}
+		return out.Close()
+	})
+}
+
+func runControl(repo, verif, prop string, ctl controlSpec) controlResult {
+	res := controlResult{ID: ctl.ID}
+	tmp, err := os.MkdirTemp("", "goatverif-ctl-")
+	if err != nil {
+		res.Status, res.Note = "not_applicable", "cannot create scratch dir: "+err.Error()
+		return res
+	}
+	defer os.RemoveAll(tmp)
+	if err := copyTree(repo, tmp); err != nil {
+		res.Status, res.Note = "not_applicable", "cannot copy sources: "+err.Error()
+		return res
+	}
+	ap := exec.Command("git", "apply", "--whitespace=nowarn", ctl.Patch)
+	ap.Dir = tmp
+	if out, err := ap.CombinedOutput(); err != nil {
+		res.Status, res.Note = "not_applicable", "patch does not apply to the current sources: "+firstLine(string(out))
+		return res
+	}
+	self, err := os.Executable()
+	if err != nil {
+		res.Status, res.Note = "not_applicable", err.Error()
+		return res
+	}
+	cmd := exec.Command(self, "check", "-p", prop, "-tier", "quick", "-repo", tmp, "-verif", verif, "-no-evidence")
+	cmd.Env = append(os.Environ(), "VERIF_TIER=quick")
+	out, _ := cmd.CombinedOutput()
+	rules := map[string]bool{}
+	loadFail := false
+	for _, ln := range strings.Split(string(out), "\n") {
+		ln = strings.TrimSpace(ln)
+		if !strings.HasPrefix(ln, "violated: ") {
+			continue
+		}
+		f := strings.Fields(ln)
+		if len(f) >= 2 {
+			if strings.HasSuffix(f[1], ".load") {
+				loadFail = true
+			}
+			rules[f[1]] = true
+		}
+	}
+	for r := range rules {
+		res.Rules = append(res.Rules, r)
+	}
+	sort.Strings(res.Rules)
+	switch {
+	case loadFail:
+		res.Status, res.Note = "not_applicable", "the variant does not type-check"
+	case len(rules) > 0:
+		res.Status = "fired"
+	default:
+		res.Status, res.Note = "missed", "the property's rules report no violation on this variant"
+	}
+	return res
+}
+
+func firstLine(s string) string {
+	s = strings.TrimSpace(s)
+	if i := strings.Index(s, "\n"); i >= 0 {
+		return s[:i]
+	}
+	return s
+}
 
 func thoroughExtras(def *PropDef, repo, verif string, main *runResult) map[string]interface{} {
-	return map[string]interface{}{}
+	out := map[string]interface{}{}
+	ctls := loadControls(verif, def.ID)
+	results := make([]controlResult, len(ctls))
+	var wg sync.WaitGroup
+	sem := make(chan struct{}, 6)
+	for i, ctl := range ctls {
+		wg.Add(1)
+		go func(i int, ctl controlSpec) {
+			defer wg.Done()
+			sem <- struct{}{}
+			defer func() { <-sem }()
+			results[i] = runControl(repo, verif, def.ID, ctl)
+		}(i, ctl)
+	}
+	wg.Wait()
+	fired, missed, na := 0, 0, 0
+	for _, r := range results {
+		switch r.Status {
+		case "fired":
+			fired++
+		case "missed":
+			missed++
+		default:
+			na++
+		}
+		fmt.Printf("  control %-28s %s %s %s\n", r.ID, r.Status, strings.Join(r.Rules, ","), r.Note)
+	}
+	out["positive_controls"] = results
+	out["controls_attempted"] = len(results)
+	out["controls_fired"] = fired
+	out["controls_missed"] = missed
+	out["controls_not_applicable"] = na
+	out["controls_note"] = "controls are seeded changes and reverse-of-fix patches applied to a scratch copy of the current sources and re-analysed in a child process; 'fired' = the property's rules reported a violation on the variant; a missed or inapplicable control is reported here and never turns into an alarm on /repo"
+	if main != nil && main.ctx != nil {
+		out["sweeps"] = moduleSweeps(main.ctx.P)
+	}
+	return out
+}
+
+// moduleSweeps: candidates outside the frozen rule tables, for the reader.
+func moduleSweeps(p *Prog) map[string]interface{} {
+	out := map[string]interface{}{}
+	fns := p.AllModuleFuncs()
+	// 1. every close(ch) in the module and whether it is inside a sync.Once.Do literal
+	var closes []string
+	for _, f := range fns {
+		eachInstr(f, func(_ *ssa.BasicBlock, _ int, in ssa.Instruction) {
+			if call, ok := in.(*ssa.Call); ok {
+				if b, ok := call.Call.Value.(*ssa.Builtin); ok && b.Name() == "close" {
+					once, _ := insideOnceDo(f, call.Call.Args[0])
+					pos := p.Fset.Position(call.Pos())
+					rel, _ := filepath.Rel(p.Repo, pos.Filename)
+					closes = append(closes, fmt.Sprintf("%s:%d in %s once=%v", rel, pos.Line, fname(f), once))
+				}
+			}
+		})
+	}
+	sort.Strings(closes)
+	out["channel_closes"] = closes
+	// 2. dropped results of AddTasks
+	var dropped []string
+	for _, f := range fns {
+		for _, ci := range Calls(f) {
+			nm := ""
+			if ci.Method != nil {
+				nm = ci.Method.Name()
+			} else if ci.Static != nil {
+				nm = ci.Static.Name()
+			}
+			if nm != "AddTasks" {
+				continue
+			}
+			if v := ci.Value(); v == nil || len(*v.Referrers()) == 0 {
+				pos := p.Fset.Position(ci.Pos())
+				rel, _ := filepath.Rel(p.Repo, pos.Filename)
+				dropped = append(dropped, fmt.Sprintf("%s:%d in %s", rel, pos.Line, fname(f)))
+			}
+		}
+	}
+	sort.Strings(dropped)
+	out["dropped_AddTasks_results_unclassified"] = dropped
+	// 3. lock-guard candidates: fields of structs with a mutex, accessed with and without a lock of that struct held
+	le := NewLockEngine(p)
+	type stat struct{ with, without int }
+	stats := map[string]*stat{}
+	for _, f := range fns {
+		la := le.Analyze(f)
+		eachInstr(f, func(_ *ssa.BasicBlock, _ int, in ssa.Instruction) {
+			fa, ok := in.(*ssa.FieldAddr)
+			if !ok {
+				return
+			}
+			pt, ok := fa.X.Type().Underlying().(*types.Pointer)
+			if !ok {
+				return
+			}
+			st, ok := pt.Elem().Underlying().(*types.Struct)
+			if !ok {
+				return
+			}
+			hasMu := false
+			for i := 0; i < st.NumFields(); i++ {
+				ts := st.Field(i).Type().String()
+				if ts == "sync.Mutex" || ts == "sync.RWMutex" {
+					hasMu = true
+				}
+			}
+			ft := st.Field(fa.Field).Type().String()
+			if !hasMu || ft == "sync.Mutex" || ft == "sync.RWMutex" || freshBase(fa.X) {
+				return
+			}
+			key := fieldName(fa)
+			s := stats[key]
+			if s == nil {
+				s = &stat{}
+				stats[key] = s
+			}
+			held := la.HeldBefore(fa)
+			base := keyP(fa.X)
+			locked := false
+			for k := range held {
+				if strings.HasPrefix(k, base+".") {
+					locked = true
+				}
+			}
+			if locked {
+				s.with++
+			} else {
+				s.without++
+			}
+		})
+	}
+	var cands []string
+	for k, s := range stats {
+		if s.with > 0 && s.without > 0 {
+			cands = append(cands, fmt.Sprintf("%s locked=%d unlocked=%d", k, s.with, s.without))
+		}
+	}
+	sort.Strings(cands)
+	out["mixed_guard_fields_unclassified"] = cands
+	return out
 }
